@@ -125,6 +125,17 @@ func replay(b *behaviour, e *env, variant int) (key, detail string, at int, obs 
 			cancelCur() // the hook cancels the caller's context
 		}
 		mu.Unlock()
+		if variant%2 == 1 {
+			// every other variant steers the segments with the library's own general block hook: the failure is an error
+			// of its "previous advertisement" callback
+			dagsync.MakeGeneralBlockHook(func(c cid.Cid) (cid.Cid, error) {
+				if fb != 0 && num(ch, c) == fb {
+					return cid.Undef, errors.New("injected hook failure")
+				}
+				return ch.Prev(c), nil
+			})(peer.ID(""), bc, actions)
+			return
+		}
 		if fb != 0 && num(ch, bc) == fb {
 			actions.FailSync(errors.New("injected hook failure"))
 			return
